@@ -380,7 +380,11 @@ func (g *gate) SendRequest(ctx context.Context, addr string, req *tikvrpc.Reques
 	g.trace.add(Event{Kind: "send", Client: g.id, ReqID: id, Cmd: req.Type.String(), F: f})
 	g.mu.Unlock()
 	if hook != nil {
+		// the request is pending while the hook runs: quiescence detection must not mistake this for an idle client
+		g.inflight.Add(1)
 		hook()
+		g.lastAct.Store(time.Now().UnixNano())
+		g.inflight.Add(-1)
 	}
 	switch {
 	case act == "dropreq":
@@ -425,6 +429,7 @@ func (g *gate) SendRequest(ctx context.Context, addr string, req *tikvrpc.Reques
 		g.plan.mu.Unlock()
 		if ah != nil {
 			ah()
+			g.lastAct.Store(time.Now().UnixNano())
 		}
 	}
 	g.inflight.Add(-1)
